@@ -46,6 +46,9 @@ CLAIMS = {
     'C04': dict(
         text="Decides necessary structural conditions of the bits-back round trip for all inputs/configurations: every function that exports the ANS state applies the truncating chunker to the unmodified state (so words below the marker are never dropped); from_binary starts from the single marker bit and the raw-binary view / consuming export strip exactly one leading chunk that must equal Word::one(); from_binary can only fail with the backend's read error; the two import loops and the decoder's refill test compare the state with the same threshold and the same strictness. Not decided: encode(decode(bits)) == bits for all states (the algebra of the coding step), exactness of num_valid_bits.",
         tech="same-source rule over all exporters; marker push/strip pairing; error-origin classification; sibling agreement of the normalisation threshold (structural predicate equality)"),
+    'C05': dict(
+        text="Decides necessary structural conditions, for all models/configurations, for the representations of one distribution to be the same model: every fixed-point cumulative of the leaky quantizer (encoder view, decoder search, symbol_table iterator) evaluates cdf and slack at the same boundary index (affine rule); views/projections copy the same-named fields; `impl Trait for &M` forwards unchanged; generic conversions store table triples without arithmetic; the contiguous->lookup conversion copies the cdf and fills the table from the monotonic part cdf[1..len-1] only; the lazy and eager categorical constructors compute a structurally identical `scale` under the same validation, with the as_(prefix_sum*scale)+index formula in both. Not decided: numeric equality of genuinely different float paths; uniform-model views.",
+        tech="affine boundary-consistency rule over the value graph (R10); same-field / delegation / no-arithmetic rules; structural (DAG) equality of sibling float computations"),
 }
 
 NA = {
